@@ -378,6 +378,138 @@ func runC14(c *Ctx) {
 			"a goroutine of a call blocks on a channel that is shared by all calls in "+bad+": goroutines that hold a slot while they wait for others that need one stop for ever when calls overlap")
 	}
 
+	// ---- R14.13: a field that is written under the struct's own mutex is never touched without it ----
+	// (the contradiction rule: one place takes the lock to write the field, another reads or writes it bare - one of the two
+	// is wrong, and the bare one races with the locked writer)
+	{
+		nF := 0
+		for _, tn := range []string{"matcher", "Classifier"} {
+			T := p.Named(scPkg, tn)
+			if T == nil || core.StructOf(T) == nil {
+				continue
+			}
+			st := core.StructOf(T)
+			muKey := ""
+			for i := 0; i < st.NumFields(); i++ {
+				if core.IsNamedType(st.Field(i).Type(), "sync", "Mutex") || core.IsNamedType(st.Field(i).Type(), "sync", "RWMutex") {
+					muKey = "stringclassifier." + tn + "." + st.Field(i).Name()
+				}
+			}
+			if muKey == "" {
+				continue
+			}
+			type acc struct {
+				f     *ssa.Function
+				in    ssa.Instruction
+				write bool
+			}
+			byField := map[string][]acc{}
+			for _, f := range fns {
+				for _, b := range f.Blocks {
+					for _, in := range b.Instrs {
+						var fa *ssa.FieldAddr
+						write := false
+						switch x := in.(type) {
+						case *ssa.Store:
+							fa, _ = x.Addr.(*ssa.FieldAddr)
+							write = true
+						case *ssa.UnOp:
+							if x.Op == token.MUL {
+								fa, _ = x.X.(*ssa.FieldAddr)
+							}
+						}
+						if fa == nil || isFreshBase(fa.X) || core.TypeName(fa.X.Type()) != "*"+scPkg+"."+tn && !strings.HasSuffix(core.TypeName(fa.X.Type()), "stringclassifier."+tn) {
+							continue
+						}
+						ft := st.Field(fa.Field).Type()
+						if strings.HasPrefix(ft.String(), "sync.") {
+							continue
+						}
+						byField[st.Field(fa.Field).Name()] = append(byField[st.Field(fa.Field).Name()], acc{f, in, write})
+					}
+				}
+			}
+			for name, accs := range byField {
+				lockedWrite := false
+				for _, a := range accs {
+					if a.write && flows[a.f].Held(a.in, muKey).Mode == eng.LockW {
+						lockedWrite = true
+					}
+				}
+				if !lockedWrite {
+					continue
+				}
+				nF++
+				for _, a := range accs {
+					h := flows[a.f].Held(a.in, muKey)
+					okA := h.Mode == eng.LockW || (!a.write && h.Mode != 0)
+					what := "read"
+					if a.write {
+						what = "write"
+					}
+					c.R.Check(okA, "R14.13", fmt.Sprintf("%s: %s of %s.%s holds %s", core.ShortFn(a.f), what, tn, name, muKey), p.Pos(a.in.Pos()), "held: "+flows[a.f].Before[a.in].String(),
+						fmt.Sprintf("%s.%s is written under %s elsewhere, but this %s does not hold it (held: %s): it races with the locked writer, and what it sees depends on the schedule", tn, name, muKey, what, flows[a.f].Before[a.in].String()))
+				}
+			}
+		}
+		c.R.Count("R14.13:fields written under their struct's mutex", nF)
+	}
+
+	// ---- R14.14: no spawned goroutine decides by a variable that its siblings write ----------------------
+	// a goroutine may add its result to shared state under the lock; what it computes - and whether it reports it - must not
+	// depend on what the other goroutines have put there so far, or the answer depends on which of them was faster
+	{
+		region := eng.ConcurrentRegion(fns)
+		written := map[*ssa.FreeVar]bool{}
+		for f := range region {
+			for _, b := range f.Blocks {
+				for _, in := range b.Instrs {
+					if stv, ok := in.(*ssa.Store); ok {
+						if fv, isFV := stv.Addr.(*ssa.FreeVar); isFV {
+							written[fv] = true
+						}
+					}
+				}
+			}
+		}
+		nIf, bad := 0, ""
+		for f := range region {
+			for _, b := range f.Blocks {
+				ifi, ok := b.Instrs[len(b.Instrs)-1].(*ssa.If)
+				if !ok {
+					continue
+				}
+				nIf++
+				seen := map[ssa.Value]bool{}
+				var walk func(v ssa.Value) bool
+				walk = func(v ssa.Value) bool {
+					if v == nil || seen[v] {
+						return false
+					}
+					seen[v] = true
+					if ld, isLd := v.(*ssa.UnOp); isLd && ld.Op == token.MUL {
+						if fv, isFV := ld.X.(*ssa.FreeVar); isFV && written[fv] {
+							return true
+						}
+					}
+					if vi, ok := v.(ssa.Instruction); ok {
+						for _, op := range vi.Operands(nil) {
+							if walk(*op) {
+								return true
+							}
+						}
+					}
+					return false
+				}
+				if walk(ifi.Cond) {
+					bad = core.ShortFn(f) + " (" + p.Pos(ifi.Cond.Pos()) + ")"
+				}
+			}
+		}
+		c.R.Check(bad == "", "R14.14", "stringclassifier: no goroutine branches on a captured variable that goroutines write", scPkg, fmt.Sprintf("%d branches in functions that can run in spawned goroutines", nIf),
+			"a branch in "+bad+" tests a captured variable that the goroutines of the same call also assign: what this goroutine does depends on how far the others have got, so equal calls give different answers")
+	}
+
 	// ---- R14.12: results of goroutines are not collected in completion order ------------
 	checkCompletionOrder(c, p)
 
